@@ -25,7 +25,12 @@ TRUSTED = C14.TRUSTED + [
     "the same names written in a different order depends on string hashing (mutations that only reorder events= are not generated)",
 ]
 ASSUMPTIONS = ["group names within one file are unique (the daemon's group table is keyed by name)"]
-RULE = ("cases = (old file, new file) pairs: new = old with one mutation of a class (one option of one process changed - every option in turn -, "
+RULE = ("(a) histories: one daemon (real ServerOptions/Supervisor/rpcinterface/do_update, no child ever started) taken through 2-4 file versions with "
+        "reread, update (all / named groups), supervisorctl-style remove and add between them; half of the versions are targeted at a group that is in "
+        "the file but not active (removed by hand, skipped by a restricted update, or only seen by a reread) whose only change is a log file switching "
+        "between AUTO and an explicit name, the rest are random mutations incl. unparsable files; after every reread/update the configuration list "
+        "that addProcessGroup will use and the active groups' configurations are compared option by option with an independent parse of the file on "
+        "disk.  (b) cases = (old file, new file) pairs: new = old with one mutation of a class (one option of one process changed - every option in turn -, "
         "numprocs grown/shrunk, group/program/listener added, removed, renamed, sections reordered, pool events/buffer changed, program moved "
         "into or out of a [group:x], section kind changed, file made unparsable, unchanged); distinct by the two parser views; non-trivial when "
         "the mutation is not 'unchanged'")
@@ -310,6 +315,257 @@ def rng_sample(ctx, seq, k):
     return seq if len(seq) <= k else ctx.rng.sample(seq, k)
 
 
+# ---------------------------------------------------------------------------------------------------------
+# histories: several file versions with reread / update / manual remove+add between them, against ONE daemon
+# (real ServerOptions, real Supervisor.add_process_group / remove_process_group, real rpcinterface, real do_update)
+# ---------------------------------------------------------------------------------------------------------
+def toggle_logfile(secs, si, rng):
+    """the only difference: one log file option switches between AUTO and an explicit name"""
+    k = rng.choice(['stdout_logfile', 'stderr_logfile'])
+    d = dict(secs[si][1])
+    cur = d.get(k, 'AUTO')
+    new = '/tmp/h_%s.log' % rng.choice('abc') if cur.strip().lower() == 'auto' else 'AUTO'
+    o = [(a, b) for a, b in secs[si][1] if a != k] + [(k, new)]
+    if k == 'stderr_logfile':
+        o = [(a, b) for a, b in o if a != 'redirect_stderr']
+    s2 = list(secs); s2[si] = (secs[si][0], o)
+    return s2
+
+
+def gen_history(rng, scratch):
+    cfg = L.gen_config(rng, scratch, small=True)
+    secs = [s for s in cfg['sections'] if not s[0].startswith('fcgi-program:')]
+    steps = []
+    def homog(secs):
+        grouped = {p.strip() for s, o in secs if s.startswith('group:') for p in dict(o).get('programs', '').split(',')}
+        return [(i, s.split(':', 1)[1]) for i, (s, _) in enumerate(secs)
+                if s.startswith(('program:', 'eventlistener:')) and s.split(':', 1)[1] not in grouped]
+    cur = secs
+    nver = rng.choice([1, 2, 2, 3])
+    for v in range(nver):
+        hs = homog(cur)
+        targeted = hs and rng.random() < 0.5
+        if targeted:
+            si, g = rng.choice(hs)
+            how = rng.choice(['removed-by-hand', 'skipped-by-restricted-update', 'seen-by-reread-only'])
+            if how == 'removed-by-hand':
+                steps.append(('remove', g))
+                cur = toggle_logfile(cur, si, rng)
+            elif how == 'skipped-by-restricted-update':
+                # a new group appears, update names only another group, then its log file is toggled
+                nm = 'late_%d' % v
+                cur = cur + [('program:' + nm, [('command', '/bin/late'), ('stdout_logfile', rng.choice(['AUTO', '/tmp/late.log']))])]
+                steps.append(('write', cur)); steps.append(('update', [g]))
+                cur = toggle_logfile(cur, len(cur) - 1, rng)
+                g = nm
+            else:
+                nm = 'seen_%d' % v
+                cur = cur + [('program:' + nm, [('command', '/bin/seen'), ('stderr_logfile', rng.choice(['AUTO', '/tmp/seen.err']))])]
+                steps.append(('write', cur)); steps.append(('reread',))
+                cur = toggle_logfile(cur, len(cur) - 1, rng)
+                g = nm
+            steps.append(('write', cur)); steps.append(('reread',))
+            steps.append(rng.choice([('add', g), ('update', []), ('update', [g]), ('update', ['all'])]))
+        else:
+            muts = [m for m in mutations(rng, {'sections': cur}, everything=False) if not m[0].startswith('kind:')]
+            label, nxt = rng.choice(muts)
+            if any(s[0].startswith('fcgi-program:') for s in nxt):
+                nxt = cur
+            hs2 = homog(cur)
+            if hs2 and rng.random() < 0.3:
+                steps.append(('remove', rng.choice(hs2)[1]))
+            steps.append(('write', nxt))
+            r = rng.random()
+            if r < 0.35:
+                steps.append(('reread',)); steps.append(('update', []))
+            elif r < 0.55:
+                steps.append(('update', []))
+            elif r < 0.75:
+                names_ = [n for _, n in homog(nxt)]
+                steps.append(('reread',)); steps.append(('update', rng.sample(names_, min(len(names_), 1))))
+            else:
+                steps.append(('reread',)); steps.append(('reread',))
+                if hs2:
+                    steps.append(('add', rng.choice(hs2)[1]))
+            if not label.startswith('unparsable'):
+                cur = nxt
+            else:
+                steps.append(('write', cur))
+    steps.append(('reread',)); steps.append(('update', []))
+    return secs, steps
+
+
+def exact_differs(a, b):
+    return L.cfg_digest(a) != L.cfg_digest(b)
+
+
+def run_history(ctx, st, secs0, steps, tag='h'):
+    from supervisor.supervisord import Supervisor
+    from supervisor.rpcinterface import SupervisorNamespaceRPCInterface
+    from supervisor.xmlrpc import RPCError, Faults
+    from supervisor.compat import xmlrpclib
+    from supervisor.supervisorctl import DefaultControllerPlugin
+    from supervisor import events
+    inp = {'history': True, 'start': secs0, 'steps': [list(x) for x in steps]}
+    dirs = L.known_dirs([ctx.scratch])
+    events.clear()
+    path = L.write_config({'sections': secs0, 'include': []}, ctx.scratch, tag)
+    o = L.make_options(L.ENV_VARS)
+    o.configfile = path
+    (kind, r0), toks0, p0 = L.capture_tokens(o, lambda: o.process_config(do_usage=False), dirs)
+    if kind != 'ok' or toks0 is None:
+        ctx.count('history:start-rejected'); return
+    if len({g.name for g in o.process_group_configs}) != len(o.process_group_configs):
+        ctx.count('history:duplicate-names'); return
+    sup = Supervisor(o)
+    for g in o.process_group_configs:
+        sup.add_process_group(g)
+    rpc = SupervisorNamespaceRPCInterface(sup)
+    modelled = C14.in_model_subset(p0)
+    ops, lines = [], []
+    synced = True       # options.process_group_configs was read from the file now on disk
+    fault_names = {Faults.BAD_NAME: 'BAD_NAME', Faults.ALREADY_ADDED: 'ALREADY_ADDED', Faults.STILL_RUNNING: 'STILL_RUNNING',
+                   Faults.CANT_REREAD: 'CANT_REREAD'}
+
+    def state_line(ans):
+        return '%s | file=%s | active=%s' % (ans, L.list_digest(o.process_group_configs),
+                                             L.list_digest([g.config for g in sup.process_groups.values()]))
+
+    def fresh():
+        f = L.parse_with(L.make_options(L.ENV_VARS), path, reread=True)
+        return f if f.status == 'ok' else None
+
+    def check_file_list(where):
+        f = fresh()
+        if f is None:
+            return
+        want = f.options.process_group_configs
+        got = o.process_group_configs
+        if [g.name for g in got] != [g.name for g in want] or any(exact_differs(x, y) for x, y in zip(got, want)):
+            bad = [y.name for x, y in zip(got, want) if x.name == y.name and exact_differs(x, y)]
+            ctx.violation('config-list-stale-after-reread',
+                          '%s: options.process_group_configs is not the file on disk (groups with other options: %r; names %r vs file %r)' % (
+                              where, bad, [g.name for g in got], [g.name for g in want]), inp)
+
+    class HProxy:
+        def __init__(self):
+            self.calls, self.added_now, self.toks, self.parser = [], set(), None, None
+        def reloadConfig(self):
+            (k, r), self.toks, self.parser = L.capture_tokens(o, rpc.reloadConfig, dirs)
+            if k == 'exc':
+                if isinstance(r, RPCError):
+                    raise xmlrpclib.Fault(r.code, r.text)
+                raise r
+            return r
+        def getAllProcessInfo(self):
+            return [{'group': n, 'name': n} for n in sup.process_groups]
+        def stopProcessGroup(self, n):
+            self.calls.append('stop:' + n); return []
+        def _rpc(self, fn, n):
+            try:
+                return fn(n)
+            except RPCError as e:
+                raise xmlrpclib.Fault(e.code, e.text)
+        def removeProcessGroup(self, n):
+            self.calls.append('remove:' + n); return self._rpc(rpc.removeProcessGroup, n)
+        def addProcessGroup(self, n):
+            self.calls.append('add:' + n); self.added_now.add(n); return self._rpc(rpc.addProcessGroup, n)
+
+    for step in steps:
+        if step[0] == 'write':
+            L.write_config({'sections': step[1], 'include': []}, ctx.scratch, tag)
+            synced = False
+            continue
+        ctx.count('history-op:' + step[0])
+        if step[0] == 'reread':
+            (k, r), toks, prs = L.capture_tokens(o, rpc.reloadConfig, dirs)
+            if k == 'ok':
+                ans = 'added=%s changed=%s removed=%s' % tuple(names(x) for x in r[0])
+                synced = True
+                check_file_list('after reread')
+            elif isinstance(r, RPCError):
+                ans = fault_names.get(r.code, 'fault %s' % r.code)
+            else:
+                ans = 'exc ' + type(r).__name__
+                ctx.violation('reread-raised:' + type(r).__name__, str(r)[:160], inp)
+            if toks is None or not C14.in_model_subset(prs):
+                modelled = False
+            else:
+                ops.append('reread T ' + ' '.join(toks))
+        elif step[0] == 'update':
+            px = HProxy()
+            ctl = Ctl(px)
+            try:
+                DefaultControllerPlugin(ctl).do_update(' '.join(step[1]))
+                ans = 'ok'
+                synced = True
+            except xmlrpclib.Fault as e:
+                ans = fault_names.get(e.faultCode, 'fault %s' % e.faultCode)
+                if e.faultCode != Faults.CANT_REREAD:
+                    ctx.violation('update-aborted:Fault', 'update %r: %s after %r' % (step[1], e, px.calls), inp)
+            except Exception as e:
+                ans = 'exc ' + type(e).__name__
+                ctx.violation('update-aborted:' + type(e).__name__, 'update %r: %s after %r' % (step[1], str(e)[:120], px.calls), inp)
+            if ans == 'ok':
+                check_file_list('after update')
+                f = fresh()
+                if f is not None:
+                    want = {g.name: g for g in f.options.process_group_configs}
+                    active = {n: g.config for n, g in sup.process_groups.items()}
+                    unrestricted = not step[1] or 'all' in step[1]
+                    if unrestricted and sorted(active) != sorted(want):
+                        ctx.violation('update-does-not-converge', 'active groups %r, file %r' % (sorted(active), sorted(want)), inp)
+                    for n in sorted(set(active) & set(want)):
+                        if n in px.added_now:
+                            if exact_differs(active[n], want[n]):      # a group update just (re)added has the file's options, exactly
+                                ctx.violation('update-does-not-converge', 'update %r activated %s with options other than the file\'s: %s / file %s' % (
+                                    step[1], n, L.cfg_digest(active[n])[:300], L.cfg_digest(want[n])[:300]), inp)
+                        elif unrestricted and differs(active[n], want[n]):   # untouched groups: equal up to the AUTO wildcard
+                            ctx.violation('update-does-not-converge', 'after update %s still differs from the file' % n, inp)
+            if px.toks is None or not C14.in_model_subset(px.parser):
+                modelled = False
+            else:
+                ops.append('update %s T %s' % (','.join(L.hx(x) for x in step[1]) or '-', ' '.join(px.toks)))
+        elif step[0] in ('remove', 'add'):
+            g = step[1]
+            try:
+                (rpc.removeProcessGroup if step[0] == 'remove' else rpc.addProcessGroup)(g)
+                ans = 'ok'
+            except RPCError as e:
+                ans = fault_names.get(e.code, 'fault %s' % e.code)
+            if step[0] == 'add' and ans == 'ok' and synced:
+                f = fresh()
+                if f is not None:
+                    want = {x.name: x for x in f.options.process_group_configs}
+                    if g in want and exact_differs(sup.process_groups[g].config, want[g]):
+                        ctx.violation('added-group-has-stale-options', 'add %s after a reread of the current file: %s / file %s' % (
+                            g, L.cfg_digest(sup.process_groups[g].config)[:300], L.cfg_digest(want[g])[:300]), inp)
+            ops.append('%s %s' % (step[0], L.hx(g)))
+        lines.append(state_line(ans))
+        ctx.count('history-answer:' + ans.split('=')[0].split(' ')[0])
+    events.clear()
+    ctx.case_done(('history', repr(secs0), repr(steps)), True)
+    if modelled and len(ops) == len(lines):
+        st['hcases'].append(('case history ' + ' '.join(toks0), ops))
+        st['himpls'].append(lines)
+        if len(ctx.samples) < 6:
+            ctx.sample({'history': [x[0] if x[0] == 'write' else list(x) for x in steps], 'impl_answers': [l.split(' | ')[0] for l in lines]})
+    else:
+        ctx.count('history:not-modelled')
+
+
+HISTORY_CORPUS = [
+    # the stale-list scenario: group removed by hand, its log file switches AUTO -> explicit, reread, add
+    ([('supervisord', []), ('program:a', [('command', '/bin/a')]), ('program:b', [('command', '/bin/b')])],
+     [('remove', 'a'), ('write', [('supervisord', []), ('program:a', [('command', '/bin/a'), ('stdout_logfile', '/tmp/h_a.log')]), ('program:b', [('command', '/bin/b')])]),
+      ('reread',), ('add', 'a'), ('reread',), ('update', [])]),
+    ([('supervisord', []), ('program:a', [('command', '/bin/a'), ('stderr_logfile', '/tmp/h_a.err')])],
+     [('write', [('supervisord', []), ('program:a', [('command', '/bin/a'), ('stderr_logfile', '/tmp/h_a.err')]), ('program:n', [('command', '/bin/n'), ('stdout_logfile', '/tmp/n.log')])]),
+      ('reread',), ('write', [('supervisord', []), ('program:a', [('command', '/bin/a'), ('stderr_logfile', '/tmp/h_a.err')]), ('program:n', [('command', '/bin/n'), ('stdout_logfile', 'AUTO')])]),
+      ('reread',), ('update', [])]),
+]
+
+
 CORPUS = [
     ('kind:fcgi->program', [('supervisord', []), ('fcgi-program:a', [('command', '/bin/a'), ('socket', 'tcp://localhost:9000')])],
      [('supervisord', []), ('program:a', [('command', '/bin/a')])]),
@@ -320,21 +576,32 @@ CORPUS = [
 
 def run(ctx):
     rng = ctx.rng
-    st = {'cases': [], 'impls': []}
+    st = {'cases': [], 'impls': [], 'hcases': [], 'himpls': []}
     for label, old, new in CORPUS:
         one_pair(ctx, st, {'sections': old}, label, new, 'c')
-    for i in range(ctx.n(12, 140)):
+    for secs0, steps in HISTORY_CORPUS:
+        run_history(ctx, st, secs0, steps)
+    for i in range(ctx.n(12, 110)):
         cfg = L.gen_config(rng, ctx.scratch, small=True)
         cfg['include'] = []
         for label, newsecs in mutations(rng, cfg, everything=(i % 8 == 0)):
             one_pair(ctx, st, cfg, label, newsecs, 'p')
+    for i in range(ctx.n(60, 500)):
+        secs0, steps = gen_history(rng, ctx.scratch)
+        run_history(ctx, st, secs0, steps)
     ctx.correspond('reread', st['cases'], st['impls'])
+    ctx.correspond('history', st['hcases'], st['himpls'])
 
 
 def replay(ctx, data):
     inp = data['input']
-    st = {'cases': [], 'impls': []}
+    st = {'cases': [], 'impls': [], 'hcases': [], 'himpls': []}
     tup = lambda secs: [(s, [tuple(o) for o in opts]) for s, opts in secs]
+    if inp.get('history'):
+        steps = [('write', tup(x[1])) if x[0] == 'write' else tuple(x) for x in inp['steps']]
+        run_history(ctx, st, tup(inp['start']), steps, 'r')
+        ctx.correspond('history', st['hcases'], st['himpls'])
+        return
     one_pair(ctx, st, {'sections': tup(inp['old'])}, inp['label'], tup(inp['new']), 'r')
     ctx.correspond('reread', st['cases'], st['impls'])
 
